@@ -33,6 +33,7 @@ type ReqSpec struct {
 	Deadline     time.Duration `json:"deadline,omitempty"`      // >0: context deadline from now
 	NoWait       bool          `json:"no_wait,omitempty"`       // do not wait for quiescence
 	Reuse        bool          `json:"reuse,omitempty"`         // caller reuses (mutates) its request object once the body is closed
+	ReuseHeader  map[string][]string `json:"reuse_header,omitempty"` // header fields the caller sets on its request object once the body is closed
 	KeepBody     bool          `json:"-"`                       // leave the body unread (Mode R callers)
 	LateBody     bool          `json:"late_body,omitempty"`     // read the body only after background work triggered by the request has quiesced
 }
@@ -433,6 +434,10 @@ func (w *World) Run(ex *Exchange) {
 	if spec.CancelAfter {
 		cancel()
 	}
+	for k, v := range spec.ReuseHeader {
+		// the caller re-targets its own request object (allowed once the body is closed)
+		req.Header[k] = append([]string(nil), v...)
+	}
 	if spec.Reuse && req.URL != nil {
 		// the body has been read and closed: the caller owns the request again
 		req.URL.Path = "/reused-by-caller"
@@ -449,7 +454,7 @@ func (w *World) Run(ex *Exchange) {
 			ex.HeaderQ = resp.Header.Clone()
 		}
 		ex.ReqQuiesced = snapReq(req)
-		if spec.Reuse {
+		if spec.Reuse || len(spec.ReuseHeader) > 0 {
 			ex.ReqQuiesced = ex.ReqAfter
 		}
 		ex.StoreOps = w.Store.Ops(ex.OpsFrom)
